@@ -36,3 +36,18 @@ func invMap[E any, O any](s []E, f func(E) O, n []O, rangeindex int) bool {
 	return verif.Fresh(n) && rangeindex < len(s) && len(n) == rangeindex+1 &&
 		verif.Forall(func(i int) bool { return !(0 <= i && i < len(n)) || verif.Same(n[i], f(s[i])) })
 }
+
+// FilterInPlace keeps a subset of the elements (in the front of the same array). Assumed, not proved: it is
+// built on the standard library's slices.IndexFunc with a closure, which the engine cannot execute.
+//
+//verif:trusted-contract FilterInPlace
+//verif:pure-func-params
+func ctFilterInPlace[E any](s []E, keep func(E) bool) {
+	r := FilterInPlace(s, keep)
+	verif.Ensures("no-longer", len(r) <= len(s))
+	verif.Ensures("only-elements-that-were-there", verif.Forall(func(i int) bool {
+		return !(0 <= i && i < len(r)) || verif.Exists(func(j int) bool {
+			return 0 <= j && j < len(s) && verif.Same(r[i], verif.Old(func() E { return s[j] }))
+		})
+	}))
+}
